@@ -17,6 +17,10 @@
  *                         setfilter, setpid, setcomponents, restrict, allow, insertmisc, distadd, distget, refresh,
  *                         adopt<variant> (hwloc_shmem_topology_adopt of a file written here: good, abi, version, hlength, length,
  *                         addr, busy, nonshmem, trunc)
+ *   dupto <t> <u>         hwloc_topology_dup of loaded topology t into the free slot u
+ *   mod <t> infos <target> clear | add <name> <value> | replace <name> <value>      hwloc_modify_infos on the infos of
+ *                         target = topo | root | pu<i> | numa<i> | kind<i> (CPU kind i)
+ *   mod <t> cpukind <cpuset> <name> <value>      hwloc_cpukinds_register(cpuset, unknown efficiency, one info)
  *   filterall <t>         before load: keep every object type (memory-side caches are filtered out by default)
  *   destroy <t>
  *   env <NAME> [<VALUE>]  setenv / unsetenv (e.g. HWLOC_SYNTHETIC_VERBOSE)
@@ -503,6 +507,19 @@ static void run_cmd(char *cmd, struct outcome *out, int verbose)
   }
   t = topos[ti];
   if (!t) return;
+  if (!strcmp(kind, "dupto")) {
+    unsigned u = MAXT; sscanf(cmd, "%u", &u);
+    if (u >= MAXT || topos[u] || !loaded[ti]) { out->rc = 0; out->digest = fnv_str(FNV0, "dupto-precondition"); return; }
+    errno = 0; out->rc = hwloc_topology_dup(&topos[u], t) == 0;
+    if (out->rc) { loaded[u] = 1; value_counter[u] = 100 * (u + 1); } else topos[u] = NULL;
+    out->digest = fnv_str(FNV0, hwv_errno_name(out->rc ? 0 : errno));
+    if (verbose && out->rc) { struct hwloc_internal_distances_s *d; unsigned i; printf(" new_dv=");
+      if (!topos[u]->first_dist) putchar('-');
+      for (d = topos[u]->first_dist; d; d = d->next) putchar((d->iflags & HWLOC_INTERNAL_DIST_FLAG_OBJS_VALID) ? '1' : '0');
+      printf(" new_mv="); if (!topos[u]->nr_memattrs) putchar('-');
+      for (i = 0; i < topos[u]->nr_memattrs; i++) putchar((topos[u]->memattrs[i].iflags & HWLOC_IMATTR_FLAG_CACHE_VALID) ? '1' : '0'); }
+    return;
+  }
   if (!strcmp(kind, "configure")) {
     char src[16]; int o2 = 0, rc;
     if (sscanf(cmd, "%15s %n", src, &o2) < 1 || loaded[ti]) { out->rc = loaded[ti] ? 0 : -2; return; }
@@ -637,6 +654,27 @@ static void run_cmd(char *cmd, struct outcome *out, int verbose)
       if (verbose) printf(" new=%d skip=0", conv ? 0 : isnew);
     } else if (!strcmp(what, "refresh")) {
       out->rc = hwloc_topology_refresh(t) == 0;
+    } else if (!strcmp(what, "infos")) {
+      char target[32] = "", op[16] = "", name[64] = "", value[128] = ""; struct hwloc_infos_s *infos = NULL; int r; unsigned idx = 0;
+      sscanf(cmd, "%31s %15s %63s %127s", target, op, name, value);
+      if (!strcmp(target, "topo")) infos = hwloc_topology_get_infos(t);
+      else if (!strcmp(target, "root")) infos = &hwloc_get_root_obj(t)->infos;
+      else if (sscanf(target, "pu%u", &idx) == 1) { hwloc_obj_t o = hwloc_get_obj_by_type(t, HWLOC_OBJ_PU, idx); infos = o ? &o->infos : NULL; }
+      else if (sscanf(target, "numa%u", &idx) == 1) { hwloc_obj_t o = hwloc_get_obj_by_type(t, HWLOC_OBJ_NUMANODE, idx); infos = o ? &o->infos : NULL; }
+      else if (sscanf(target, "kind%u", &idx) == 1) { if (hwloc_cpukinds_get_info(t, idx, NULL, NULL, &infos, 0) < 0) infos = NULL; }
+      if (!infos) { out->rc = 0; out->digest = fnv_str(FNV0, "no-such-infos"); return; }
+      errno = 0;
+      if (!strcmp(op, "clear")) r = hwloc_modify_infos(infos, HWLOC_MODIFY_INFOS_OP_REMOVE, NULL, NULL);
+      else if (!strcmp(op, "add")) r = hwloc_modify_infos(infos, HWLOC_MODIFY_INFOS_OP_ADD, name, value);
+      else if (!strcmp(op, "replace")) r = hwloc_modify_infos(infos, HWLOC_MODIFY_INFOS_OP_REPLACE, name, value);
+      else { out->rc = -2; return; }
+      out->rc = r >= 0; out->digest = fnv_u64(fnv_u64(FNV0, (uint64_t)r), infos->count);
+    } else if (!strcmp(what, "cpukind")) {
+      char set[64] = "", name[64] = "", value[128] = ""; struct hwloc_info_s info; struct hwloc_infos_s infos; hwloc_bitmap_t b = hwloc_bitmap_alloc();
+      sscanf(cmd, "%63s %63s %127s", set, name, value); hwloc_bitmap_sscanf(b, set);
+      info.name = name; info.value = value; infos.array = &info; infos.count = 1; infos.allocated = 1;
+      errno = 0; out->rc = hwloc_cpukinds_register(t, b, HWLOC_CPUKIND_EFFICIENCY_UNKNOWN, &infos, 0) == 0; hwloc_bitmap_free(b);
+      out->digest = fnv_str(FNV0, hwv_errno_name(out->rc ? 0 : errno));
     } else out->rc = -2;
     return;
   }
